@@ -541,7 +541,7 @@ class ValuesUnderIntervals(Harness):
             out.append(dict(genome="g2", ivs=ivs, what="sequence"))
         # sequence read through an indexed FASTA whose record order differs from the genome's chromosome order
         # (records a, chr2, b_1, zz: the '_' contig is ignored by the genome, so zz has code 2 but is the 4th record)
-        for ivs in ([3], [0, 3], [3, 1]) + (([1, 3, 0],) if tier == "thorough" else ()):
+        for ivs in ([3], [0, 3], [3, 1], [3, 0, 1]) + (([1, 3, 0],) if tier == "thorough" else ()):     # [3,0,1]: a request order that is a 3-cycle of the genome order
             out.append(dict(genome="fasta", ivs=ivs, what="sequence_fasta"))
         return out
 
